@@ -269,6 +269,62 @@ func c12Table(c *Ctx, p *Prog) {
 		}
 		return true
 	})
+	// The mapping is decided by constant evaluation (T18) for every button code 0..255: the button and
+	// the modifiers handed to NewEventMouse, however buildMouseEvent works them out (a switch, a lookup
+	// table, a loop over rows).  The reading of the switch from the syntax tree above is kept only for
+	// the case the evaluation cannot be carried out.
+	if bm := p.Fn("tcell:(*tScreen).buildMouseEvent"); bm != nil && len(bm.Params) == 4 {
+		ce := &constEval{pk: pk, globals: map[*ssa.Global]*cv{}}
+		evalGot, evalMod := map[int64]int64{}, map[int64]int64{}
+		evalErr := ""
+		for code := int64(0); code < 256 && evalErr == ""; code++ {
+			args, err := ce.run(p, bm, map[*ssa.Parameter]*cv{bm.Params[3]: cvI(code)}, func(cc *ssa.CallCommon) bool {
+				return strings.HasSuffix(calleeName(cc), "NewEventMouse")
+			})
+			if err != nil {
+				evalErr = err.Error()
+				break
+			}
+			if len(args) != 4 || args[2].kind != cvInt || args[3].kind != cvInt {
+				evalErr = "the button or modifier passed to NewEventMouse is not decided by the code alone"
+				break
+			}
+			evalGot[code], evalMod[code] = args[2].i, args[3].i
+		}
+		if evalErr == "" {
+			none := kc("ButtonNone")
+			okMask, bad := true, ""
+			for code := int64(0); code < 256; code++ {
+				if evalGot[code] != evalGot[code&0x43] {
+					okMask = false
+					bad = fmt.Sprintf("code %#x gives button %d, code %#x gives %d", code, evalGot[code], code&0x43, evalGot[code&0x43])
+				}
+			}
+			c.Check(okMask, "C12-R1", "button:mask", p.pos(fd.Pos()), "the button depends on the low two bits and the wheel bit of the code only (0x43), for all 256 codes "+bad)
+			for _, k := range []int64{0, 1, 2, 3, 0x40, 0x41} {
+				c.Check(evalGot[k] == want[k], "C12-R1", fmt.Sprintf("button:code-%#x", k), p.pos(fd.Pos()), fmt.Sprintf("code %#x maps to button mask %d, xterm table says %d", k, evalGot[k], want[k]))
+			}
+			c.Check(evalGot[0x42] == none && evalGot[0x43] == none, "C12-R1", "button:no-extra-cases", p.pos(fd.Pos()), fmt.Sprintf("the unassigned wheel codes 0x42, 0x43 give %d, %d (no button: %d)", evalGot[0x42], evalGot[0x43], none))
+			for _, k := range []int64{4, 8, 16} {
+				okM, detail := true, ""
+				for code := int64(0); code < 256; code++ {
+					var wantM int64
+					for _, b := range []int64{4, 8, 16} {
+						if code&b != 0 {
+							wantM |= wantMod[b]
+						}
+					}
+					if evalMod[code]&wantMod[k] != wantM&wantMod[k] || (evalMod[code]&^(wantMod[4]|wantMod[8]|wantMod[16])) != 0 {
+						okM = false
+						detail = fmt.Sprintf("code %#x gives modifiers %d, xterm says %d", code, evalMod[code], wantM)
+					}
+				}
+				c.Check(okM, "C12-R1", fmt.Sprintf("modifier:bit-%d", k), p.pos(fd.Pos()), fmt.Sprintf("bit %d adds modifier %d and nothing else does, for all 256 codes %s", k, wantMod[k], detail))
+			}
+			return
+		}
+		c.Note("C12-R1: constant evaluation of buildMouseEvent not possible (" + evalErr + "); reading the switch instead")
+	}
 	c.Check(mask == 0x43, "C12-R1", "button:mask", p.pos(fd.Pos()), fmt.Sprintf("button code masked with %#x (xterm: low two bits + wheel bit 0x43)", mask))
 	for _, k := range []int64{0, 1, 2, 3, 0x40, 0x41} {
 		g, ok := got[k]
